@@ -683,6 +683,8 @@ class Ref_:
             msgs = constraint_failures(c, d, ARR_KW)
             if msgs or ch:
                 raise Rejected(Err(msgs, ch))
+            if td.kind in ("set", "abstractset", "frozenset") and any(_unhashable(v) for v in vals):
+                raise Undetermined("a set of unhashable images: the statement gives no image")
             if td.kind in ("set", "abstractset"):
                 return set(vals)
             if td.kind == "frozenset":
@@ -918,9 +920,23 @@ def bad_type_msgs(d, values) -> List[str]:
     return [bad_type_msg(d, c) for c in classes]
 
 
+class Undetermined(Exception):
+    """the statement does not determine the outcome for this (type, datum)"""
+
+
+def _unhashable(v) -> bool:
+    try:
+        hash(v)
+        return False
+    except TypeError:
+        return True
+
+
 def ref_deserialize(td: TD, d, realm: Realm, opts: Opts):
-    """('ok', image) | ('err', [(loc, msg), ...])"""
+    """('ok', image) | ('err', [(loc, msg), ...]) | ('?', reason) when the statement gives no outcome"""
     try:
         return ("ok", Ref_(realm, opts).deser(td, d))
     except Rejected as r:
         return ("err", r.err.flat())
+    except Undetermined as u:
+        return ("?", str(u))
